@@ -122,4 +122,63 @@ theorem loadCheckpointApi_initialises {D A : Type} (sp : Spec D A) (cls : String
     subst hok
     simpa using hinit
 
+/-! ## `Samples.burnthin` -/
+
+/-- Python's `l[::nt]`: entry `j` of the slice is entry `j·nt` of the list -/
+theorem sliceStep_get {α : Type} (nt : Nat) (hnt : 0 < nt) (j : Nat) :
+    ∀ l : List α, (sliceStep nt l)[j]? = l[j * nt]? := by
+  induction j with
+  | zero => intro l; cases l <;> simp [sliceStep]
+  | succ k ih =>
+    intro l
+    cases l with
+    | nil => simp [sliceStep]
+    | cons a as =>
+      rw [sliceStep, List.getElem?_cons_succ, ih, List.getElem?_drop]
+      have e : (k + 1) * nt = (nt - 1 + k * nt) + 1 := by
+        rw [Nat.succ_mul]; omega
+      rw [e, List.getElem?_cons_succ]
+
+/-- **Burn-in and thinning of the returned `Samples` select recorded states, in order**: when
+    `burnthin(Nb, Nt)` does not raise, its `j`-th entry is entry `Nb + j·Nt` of the recorded chain,
+    for every `j` (and there is no `j`-th entry exactly when the chain has no such entry) — no
+    state is altered, repeated or reordered. -/
+theorem burnthin_get {α : Type} (nb nt : Nat) (l out : List α) (h : burnthin nb nt l = some out) (j : Nat) :
+    out[j]? = l[nb + j * nt]? := by
+  unfold burnthin at h
+  split at h
+  · cases h
+  · split at h
+    · cases h
+    · rename_i _ hnt
+      cases h
+      rw [sliceStep_get nt (Nat.pos_of_ne_zero hnt), List.getElem?_drop]
+
+/-- **"The last N states once the burn-in is discarded"** for the stateful interface: without
+    thinning `burnthin(Nb)` is the recorded chain with exactly its first `Nb` states dropped. -/
+theorem burnthin_one {α : Type} (nb : Nat) (l : List α) (h : nb < l.length) :
+    burnthin nb 1 l = some (l.drop nb) ∧ (l.drop nb).length = l.length - nb := by
+  refine ⟨?_, List.length_drop⟩
+  have hge : ¬ nb ≥ l.length := by omega
+  have : ∀ m : List α, sliceStep 1 m = m := by
+    intro m
+    induction m with
+    | nil => simp [sliceStep]
+    | cons a as ih => rw [sliceStep]; simpa using ih
+  simp [burnthin, hge, this]
+
+/-- `burnthin` refuses (ValueError) exactly when the burn-in is not smaller than the chain, or the
+    thinning step is zero -/
+theorem burnthin_refuses {α : Type} (nb nt : Nat) (l : List α) :
+    burnthin nb nt l = Option.none ↔ (l.length ≤ nb ∨ nt = 0) := by
+  unfold burnthin
+  by_cases h1 : nb ≥ l.length
+  · simp [h1]
+  · by_cases h2 : nt = 0
+    · simp [h1, h2]
+    · simp [h1, h2]
+
+example : burnthin 2 3 [10, 11, 12, 13, 14, 15, 16, 17, 18] = some [12, 15, 18] ∧ burnthin 9 1 [10, 11, 12, 13, 14, 15, 16, 17, 18] = Option.none := by
+  simp [burnthin, sliceStep]
+
 end CuqiVerif.C14
